@@ -85,6 +85,20 @@ def run(W, chk):
     # ---- stableswap, empty pool: minimum liquidity minted to the contract
     pol = CutPolicy([ASSUME_SS, EMPTY_POOL, NOT_SINGLE])
     A = W.run(PM, "execute", ("ProvideLiquidity",), pol)
+    # sibling agreement: what is withheld from the first depositor and what is minted to the contract are scaled from the same
+    # (min decimals, max decimals) pair - every first-party call fed only by the pool's decimals gets the same operator classes per argument
+    sig = {}
+    for e in A.events:
+        da = e.extra.get("dargs") if e.kind == "call" and e.extra.get("rid") else None
+        if not da or len(da) != 2 or any({o for o in all_origins(x) if not o.startswith("Const(")} != {"Store(POOLS).asset_decimals[*]"} for x in da):
+            continue
+        sig.setdefault(e.name, []).append((tuple(tuple(sorted(set().union(*opmap(x).values()) & {"min", "max"})) for x in da), e))
+    for nm, lst in sorted(sig.items()):
+        kinds = {k for k, _ in lst}
+        if len(lst) >= 2:
+            chk.expect(len(kinds) == 1 and all(a != b for (a, b) in kinds), "AGREE-minimum-liquidity-scale", nm.rsplit("::", 1)[-1],
+                       "%d call sites scale the locked minimum from the same (min, max) decimals" % len(lst),
+                       "call sites of %s disagree on their decimals arguments %s: the amount withheld from the depositor and the amount locked differ" % (nm, sorted(kinds)), where(lst[0][1]))
     selfm = [e for e in A.calls_id(r"lp_common::mint_lp_token_msg$") if exact_origins(e.extra["dargs"][1]) == {"env.contract.address"} and
              "Const(mantra_dex_std::lp_common::MINIMUM_LIQUIDITY_AMOUNT)" in all_origins(e.extra["dargs"][3]) and
              {o for o in all_origins(e.extra["dargs"][3]) if not o.startswith("Const(")} <= {"Store(POOLS).asset_decimals[*]"}]
